@@ -282,11 +282,42 @@ pub fn run(out: &Path, seed: u64, thorough: bool) -> Result<(), Box<dyn std::err
             let _ = twin.finalise(ts, &h);
         }
 
+        // ---- several parked transactions with DIFFERENT inscription lengths, released by one call:
+        //      each runs under the allowance of its own inscription ---------------------------------------
+        {
+            let si = 2usize;
+            let sa = sim::signer_address(si);
+            let n0 = d.nonce(sa);
+            let nocode = Address::from_slice(&[0x77; 20]);
+            let lens = [1000u64, 2, 700, 3];
+            ts += 600;
+            let h = rnd_hash(&mut rng);
+            for (j, len) in lens.iter().enumerate() {
+                let _ = d.transact(si, n0 + 1 + j as u64, Some(nocode), &[1, 2, 3], *len, &rnd_hash(&mut rng), ts, &h);
+            }
+            let _ = d.finalise(ts, &h);
+            ts += 600;
+            let h = rnd_hash(&mut rng);
+            let (r, ss) = d.transact(si, n0, Some(nocode), &[1, 2, 3], 50, &rnd_hash(&mut rng), ts, &h);
+            let _ = d.finalise(ts, &h);
+            let got: Vec<u64> = ss.iter().map(|s| s.gas_limit()).collect();
+            let want: Vec<u64> = std::iter::once(50u64).chain(lens.iter().copied()).map(allowance).collect();
+            if got != want {
+                fails.push(json!({"what": "C16: parked transactions released by one call did not each run under 12000 gas per byte of their OWN inscription length", "case": {"answer": format!("{:?}", r).chars().take(300).collect::<String>(), "inscription_lengths": [50, 1000, 2, 700, 3], "gas_limits_seen": got, "want": want, "history": if d.log.len() <= 60 { json!(d.log) } else { json!(d.log[d.log.len() - 60..]) }}}));
+            } else { bump("parked_mixed_lengths_ok", &mut counters); }
+            if let Ok(Value::Array(rs)) = &r {
+                for (rc, w_) in rs.iter().zip(want.iter()) {
+                    let gu = envs::hexu(&rc["gasUsed"]);
+                    if gu > *w_ { fails.push(json!({"what": "C16: a released parked transaction used more gas than its own inscription allows", "case": {"gasUsed": gu, "allowance": w_, "receipt": rc}})); }
+                }
+            }
+        }
+
         // ---- twin comparison: failed transactions == no-ops of their senders ---------------------------
         let sa = state_obs(&mut d, &w, &extra);
         let sb = state_obs(&mut twin, &w, &extra);
         // the signer of the parked pair executed two transactions on A, none on B; pk3 two on B
-        let ignore = [format!("nonce({})", Hx::addr(sim::signer_address(1)).hex()), format!("nonce({})", Hx::addr(sim::pkscript_address(PKSCRIPTS[3])).hex())];
+        let ignore = [format!("nonce({})", Hx::addr(sim::signer_address(1)).hex()), format!("nonce({})", Hx::addr(sim::signer_address(2)).hex()), format!("nonce({})", Hx::addr(sim::pkscript_address(PKSCRIPTS[3])).hex())];
         let dd: Vec<_> = diff(&sa, &sb).into_iter().filter(|(k, _, _)| !ignore.contains(k)).collect();
         bump("twin_comparisons", &mut counters);
         if !dd.is_empty() {
